@@ -609,6 +609,10 @@ impl Net {
 				else {
 					let ok = self.sign_ready(i, channel_id, counterparty_node_id, unsigned_transaction);
 					self.ev(json!({"ev":"signed","node":i,"chan":c,"ok":ok}));
+					if !ok {
+						let okc = self.nodes[i].node.cancel_funding_contributed(&channel_id, &counterparty_node_id).is_ok();
+						self.ev(json!({"ev":"cancel","node":i,"chan":c,"ok":okc}));
+					}
 				}
 			},
 			Event::BumpTransaction(b) => {
@@ -932,6 +936,14 @@ impl Net {
 						let ok = self.sign_ready(i, cid, pk, tx);
 						self.log.lock().unwrap().insert(mark, json!({"ev":"signed","node":i,"chan":c,"ok":ok}));
 						self.drain();
+						if !ok && op["or_cancel"].as_bool().unwrap_or(false) {
+							// (the wallet can no longer sign -- e.g. an earlier candidate spending the same coin confirmed
+							// meanwhile --: the user gives the contribution up)
+							let mark = self.log.lock().unwrap().len();
+							let okc = self.nodes[i].node.cancel_funding_contributed(&cid, &pk).is_ok();
+							self.log.lock().unwrap().insert(mark, json!({"ev":"cancel","node":i,"chan":c,"ok":okc}));
+							self.drain();
+						}
 					},
 					_ => did = false,
 				}
@@ -993,7 +1005,7 @@ impl Net {
 				let (ex0, sk0) = (self.executed, self.skipped);
 				// wind down: every write completes, peers reconnect, everything is delivered, payments are resolved,
 				// the chain is extended until every negotiated splice is buried on every node
-				for i in 0..n { self.step(&json!({"op":"persist_mode","node":i,"mode":"completed"}), rng); self.step(&json!({"op":"complete","node":i,"which":"all"}), rng); self.step(&json!({"op":"hold_sign","node":i,"on":false}), rng); while !self.to_sign[i].is_empty() { self.step(&json!({"op":"sign","node":i}), rng); } }
+				for i in 0..n { self.step(&json!({"op":"persist_mode","node":i,"mode":"completed"}), rng); self.step(&json!({"op":"complete","node":i,"which":"all"}), rng); self.step(&json!({"op":"hold_sign","node":i,"on":false}), rng); while !self.to_sign[i].is_empty() { self.step(&json!({"op":"sign","node":i,"or_cancel":true}), rng); } }
 				let edges = self.edges.clone();
 				// (a node may ask its transport to drop the peer -- e.g. to leave a quiescence it no longer needs --:
 				// the users simply reconnect)
